@@ -423,6 +423,15 @@ func (t *termer) term(v ssa.Value, d int) string {
 		}
 		return "slice(" + base + ", " + lo + ", " + hi + ")"
 	case *ssa.BinOp:
+		// the index of `for i := range x` (hidden counter starting at -1, used as counter+1) is the same
+		// quantity as the counter of `for i := 0; …; i++`: one canonical form for both
+		if x.Op == token.ADD {
+			if k, ok := constInt(x.Y); ok && k == 1 {
+				if ph, ok := x.X.(*ssa.Phi); ok && !t.phis[ph] && isRangeIndexPhi(ph, x) {
+					return "phi{(phi↺ + 1) | 0}"
+				}
+			}
+		}
 		return "(" + t.term(x.X, d+1) + " " + x.Op.String() + " " + t.term(x.Y, d+1) + ")"
 	case *ssa.Call:
 		cc := x.Common()
@@ -1026,4 +1035,23 @@ func runeCursorCall(c *Ctx, call *ssa.Call) (ssa.Value, bool) {
 		return nil, false
 	}
 	return s, true
+}
+
+// isRangeIndexPhi: ph is the hidden counter of a range loop: -1 on entry, inc (= ph + 1) on every back edge.
+func isRangeIndexPhi(ph *ssa.Phi, inc *ssa.BinOp) bool {
+	nBack := 0
+	for i, e := range ph.Edges {
+		pred := ph.Block().Preds[i]
+		if ph.Block().Dominates(pred) {
+			if e != ssa.Value(inc) {
+				return false
+			}
+			nBack++
+			continue
+		}
+		if k, ok := constInt(e); !ok || k != -1 {
+			return false
+		}
+	}
+	return nBack > 0
 }
